@@ -216,12 +216,67 @@ def check_errors(ctx):
     vf = db.fn('type_assignment.marker_cache_v2:validate_marker_lookup')
     cfg = cfg_of(vf)
     rd = rd_of(vf)
+    # for the root, a lack of usable markers is never a mere warning:
+    # under the assumption "this parent is the root" no warning call is
+    # feasible inside the loop over parents.  The loop variable and the
+    # string key of the parent are found by role: the target of the loop
+    # over all_parents, and any variable one of whose definitions is the
+    # constant 'None'
+    from ..core.constprop import feasible
+    parent_vars = set()
+    for n_ in ast.walk(vf.node):
+        if isinstance(n_, ast.For) and isinstance(n_.target, ast.Name):
+            sl_ = backward_slice(vf, n_.iter)
+            if sl_.has_attr('all_parents'):
+                parent_vars.add(n_.target.id)
+    if not parent_vars:
+        raise AnalysisError('validate_marker_lookup: the loop over '
+                            'all_parents was not found')
+    key_vars = {d.name for d in rd.defs
+                if isinstance(getattr(d, 'value', None), ast.Constant)
+                and d.value.value == 'None'}
+
+    def assume(e, env):
+        if isinstance(e, ast.Compare) and len(e.ops) == 1 and isinstance(
+                e.left, ast.Name) and e.left.id in key_vars \
+                and isinstance(e.comparators[0], ast.Constant) \
+                and e.comparators[0].value == 'None':
+            if isinstance(e.ops[0], ast.Eq):
+                return True
+            if isinstance(e.ops[0], ast.NotEq):
+                return False
+        if isinstance(e, ast.Compare) and len(e.ops) == 1 and isinstance(
+                e.left, ast.Name) and e.left.id in parent_vars \
+                and isinstance(e.comparators[0], ast.Constant) \
+                and e.comparators[0].value is None:
+            if isinstance(e.ops[0], ast.Is):
+                return True
+            if isinstance(e.ops[0], ast.IsNot):
+                return False
+        return UNKNOWN
+    feas = feasible(vf, assume, follow_exc=False)
+    warn_nodes = []
+    for nid in feas.nodes:
+        node = cfg.nodes[nid]
+        for c in cfg.calls_in(node):
+            f = c.func
+            if isinstance(f, ast.Attribute) and f.attr == 'warn':
+                warn_nodes.append(node)
+    root_feeds = not warn_nodes
+    # what the root branch accumulates (`msg += ...`) must make a later
+    # test raise
+    accum = set()
+    for nid in feas.nodes:
+        st = cfg.nodes[nid].ast
+        if cfg.nodes[nid].kind == 'stmt' and isinstance(
+                st, ast.AugAssign) and isinstance(st.target, ast.Name):
+            accum.add(st.target.id)
     ok = False
     for n_ in cfg.nodes:
         if n_.kind == 'if' and n_.id in rd.live:
             t = n_.ast.test
             names = {x.id for x in ast.walk(t) if isinstance(x, ast.Name)}
-            if 'error_msg' in names or 'bad_parent_ct' in names:
+            if names & accum:
                 for (tt, lab) in cfg.succ[n_.id]:
                     if lab == 'true':
                         okp, _p = cfg.must_pass(
@@ -233,35 +288,6 @@ def check_errors(ctx):
                             edge_ok=lambda a, b, lab2: lab2 != 'exc')
                         if okp or cfg.nodes[tt].kind == 'raise':
                             ok = True
-    # for the root, a lack of usable markers is never a mere warning:
-    # under the assumption "this parent is the root" no warning call is
-    # feasible inside the loop over parents
-    from ..core.constprop import feasible
-
-    def assume(e, env):
-        if isinstance(e, ast.Compare) and len(e.ops) == 1 and isinstance(
-                e.left, ast.Name) and e.left.id == 'parent_str' \
-                and isinstance(e.comparators[0], ast.Constant) \
-                and e.comparators[0].value == 'None':
-            if isinstance(e.ops[0], ast.Eq):
-                return True
-            if isinstance(e.ops[0], ast.NotEq):
-                return False
-        if isinstance(e, ast.Compare) and len(e.ops) == 1 and isinstance(
-                e.left, ast.Name) and e.left.id == 'parent' \
-                and isinstance(e.comparators[0], ast.Constant) \
-                and e.comparators[0].value is None:
-            return isinstance(e.ops[0], ast.Is)
-        return UNKNOWN
-    feas = feasible(vf, assume, follow_exc=False)
-    warn_nodes = []
-    for nid in feas.nodes:
-        node = cfg.nodes[nid]
-        for c in cfg.calls_in(node):
-            f = c.func
-            if isinstance(f, ast.Attribute) and f.attr == 'warn':
-                warn_nodes.append(node)
-    root_feeds = not warn_nodes
     ctx.ob(rule, 'validate_marker_lookup:root-without-markers', vf.loc(),
            ok and root_feeds,
            'a root without usable markers accumulates an error message '
@@ -320,9 +346,6 @@ CONSUMERS = [
     'type_assignment.marker_cache_v2:serialize_markers',
     'type_assignment.election:run_type_assignment',
 ]
-
-
-WORK_WORDS = ('marker', '_run_type_assignment', 'src[', 'missing_')
 
 
 def check_single_child(ctx):
@@ -384,13 +407,45 @@ def check_single_child(ctx):
             return loop is None or (node.ast is not None and _contains(
                 loop, node.ast))
 
+        # variables that hold marker data: the marker parameters of the
+        # function, handles opened on them, and what is computed from
+        # those by builtins / methods (not the results of other pipeline
+        # functions: the election's output is not marker data)
+        marker_vars = {a for a in fi.params if 'marker' in a}
+        changed = True
+        while changed:
+            changed = False
+            for d in rd.defs:
+                v = getattr(d, 'value', None)
+                if v is None or d.name in marker_vars:
+                    continue
+                if isinstance(v, ast.Call) and isinstance(
+                        resolve_callee(db, fi, v), FunctionInfo):
+                    continue
+                if any(isinstance(x, ast.Name) and x.id in marker_vars
+                       for x in ast.walk(v)):
+                    marker_vars.add(d.name)
+                    changed = True
+
         def works(nid):
+            """the statement consults the markers or runs the election"""
             node = cfg.nodes[nid]
             if node.kind in ('join', 'try', 'dispatch', 'with_exit',
-                             'continue', 'break'):
+                             'continue', 'break', 'entry'):
                 return False
-            t = node.text()
-            return any(w in t for w in WORK_WORDS)
+            for root in node.exprs:
+                if root is None:
+                    continue
+                for x in ast.walk(root):
+                    if isinstance(x, ast.Name) and isinstance(
+                            x.ctx, ast.Load) and x.id in marker_vars:
+                        return True
+                    if isinstance(x, ast.Call):
+                        t = resolve_callee(db, fi, x)
+                        if isinstance(t, FunctionInfo) and (
+                                t.name.startswith('_run_type_assignment')):
+                            return True
+            return False
         only2 = {i for i in regions[2] - regions[1]
                  if in_loop(cfg.nodes[i])}
         only1 = {i for i in regions[1] - regions[2]
